@@ -196,6 +196,11 @@ def make_scenario(job, groups):
                         ctx.check(tp not in cur["acked"], "acknowledged-payload-never-resent", "%r was acknowledged in an earlier attempt and is sent again" % (tp,))
                         ctx.check(tp in failed, "only-failed-payloads-retried", "%r retried but did not fail" % (tp,))
                     ctx.check(set(tps) == set(failed), "all-failed-payloads-retried", "failed %r, retried %r" % (sorted(failed), sorted(tps)))
+                    for tp in tps:
+                        if tp in prev["payloads"]:
+                            a_ = [s.idx for s in prev["payloads"][tp]["sends"]]
+                            b_ = [s.idx for s in rec["payloads"][tp]["sends"]]
+                            ctx.check(a_ == b_, "retry-carries-the-same-messages", "retry of %r carries sends %r, the failed attempt carried %r (a later batch overtook an unresolved one)" % (tp, b_, a_))
                     k = len(cur["attempts"]) - 1
                     exp = interval
                     for _ in range(k):
@@ -255,7 +260,7 @@ def make_scenario(job, groups):
             tps = list(rec["payloads"].keys())
             kinds = [0]
             if st["faults"] > 0:
-                kinds += [1, 2, 3] if acks != 0 else [1, 2]
+                kinds += [1, 2, 3] if acks != 0 else [1, 2, 4]
             whole = kinds[ctx.choose("call_outcome", len(kinds))] if len(kinds) > 1 else 0
             st["last_resolve_time"] = clock.seconds()
             cur["t_prev"] = clock.seconds()
@@ -278,6 +283,19 @@ def make_scenario(job, groups):
                 ctx.log("produce-empty-result")
                 st["cur"] = None
                 client.resolve(p, [])
+                return
+            if whole == 4:
+                # acks=0 and a broker connection that never took the request: the real client reports the payloads as failed
+                st["faults"] -= 1
+                nfail = 1 + (ctx.choose("acks0_failed", len(tps)) if len(tps) > 1 else 0)
+                bad = tps[:nfail]
+                for tp in tps[nfail:]:
+                    for s in rec["payloads"][tp]["sends"]:
+                        s.handed = True
+                cur["failed_prev"] = set(bad)
+                ctx.log("produce-acks0-failed", bad)
+                finish_if_done(cur, all_failed=False)
+                client.fail(p, FailedPayloadsError([], [(rec["payloads"][tp]["payload"], Failure(RequestTimedOutError("never written"))) for tp in bad]))
                 return
             if acks == 0:
                 for tp in tps:
